@@ -291,3 +291,56 @@ func vTreeEq(a, b Expression) bool {
 	}
 	return false
 }
+
+// EXPLAIN clause: the filter a plan shows is the optimised one (constants folded). Its text must
+// parse again, to a filter that selects the same rows - "the filter shown by EXPLAIN is the
+// filter executed".
+var vC15ExplainStmts = []string{
+	"int(value) > A - B", "int(value) + (A - B) > 0", "float(value) > A.5 - B", "float(value) * (A - B.5) < 1",
+	"float(value) / (float('B') + 1) > 1", "float(value) > 1e20 * A00.0", "int(value) * (A * B) >= 0", "key + 'A' + 'B' = 'aAB'",
+	"int(value) > int('A') - int('B')", "strlen(key) = strlen('A' + 'B') - 1", "float(value) > float(A - B)", "is_int(str(A - B) + value)",
+	"int(value) in (A - B, B - A, A)", "int(value) between A - B and A + B",
+}
+
+func VN_C15_EXPLAIN(tier int) int { return len(vC15ExplainStmts) }
+
+func VH_C15_EXPLAIN(si, n int) {
+	a := vNondetBytes("A", 1, 1, "0129")
+	b := vNondetBytes("B", 1, 1, "0129")
+	w := ""
+	for i := 0; i < len(vC15ExplainStmts[si]); i++ {
+		switch c := vC15ExplainStmts[si][i]; c {
+		case 'A':
+			w += string(a)
+		case 'B':
+			w += string(b)
+		default:
+			w += string(c)
+		}
+	}
+	o := NewOptimizer("select * where " + w)
+	if o.init() != nil {
+		vCover("rejected")
+		return
+	}
+	shown := o.filter.Ast.Expr.String()
+	o2 := NewOptimizer("select * where " + shown)
+	vAssert(o2.init() == nil, "C15/shown-filter-does-not-parse")
+	vAssert(o2.filter.Ast.Expr.String() == shown, "C15/shown-filter-parses-to-a-different-tree")
+	vAssert(vTreeEq(o.filter.Ast.Expr, o2.filter.Ast.Expr), "C15/shown-filter-parses-to-a-different-tree")
+	// and it selects the same rows
+	st := vSymStore(n, 1, 1, 1, 1, "a", "0123")
+	p1, err := NewOptimizer("select * where " + w).BuildPlan(st.clone())
+	vAssert(err == nil, "harness/C15-EXPLAIN-plan")
+	r1 := vDrainNext(p1, n+1)
+	p2, err := NewOptimizer("select * where " + shown).BuildPlan(st.clone())
+	vAssert(err == nil, "C15/shown-filter-rejected-by-the-planner")
+	r2 := vDrainNext(p2, n+1)
+	if r1.err != nil {
+		vCover("execution-error")
+		return
+	}
+	vAssert(r2.err == nil, "C15/shown-filter-fails-where-the-statement-runs")
+	vAssert(vSameRows(r1.rows, r2.rows), "C15/shown-filter-selects-different-rows")
+	vCover("round-trip")
+}
